@@ -63,6 +63,8 @@ def ret_matches(kind, ret, res):
     if kind in ('set',):
         return ret is True
     if kind in ('add', 'contains', 'delete', 'touch'):
+        if isinstance(ret, B):
+            return sx.EqB(res.ok, sx._fold(ret.z))
         if not isinstance(ret, bool):
             return False
         return res.ok if ret else Not(res.ok)
@@ -111,13 +113,37 @@ def ob_pair(w, P):
             res['tB'] = w.times[kb0] if len(w.times) > kb0 else None
         finally:
             w.tid = old
-    w.interfere_at = at
-    w.interfere_hook = intruder
-    x.begin()
-    try:
-        rA = run_op(c, opA, ka, va)
-    except core.Timeout:
-        rA = 'timeout'
+    if P.get('il'):
+        # both calls suspended part-way: A up to event `at`, B up to its event `at2`, A to its end, B to its end
+        at2 = x.s.v_int('at2', 0, P.get('max_events', 14))
+        box = {}
+
+        def run_a():
+            try:
+                box['rA'] = run_op(c, opA, ka, va)
+            except core.Timeout:
+                box['rA'] = 'timeout'
+
+        def run_b():
+            kb0 = len(w.times)
+            try:
+                res['B'] = run_op(other, opB, kb, vb)
+            except core.Timeout:
+                res['B'] = 'timeout'
+            except KeyError:
+                res['B'] = 'keyerror'
+            res['tB'] = w.times[kb0] if len(w.times) > kb0 else None
+        x.begin()
+        w.interleave(run_a, run_b, at, at2, id_a=(w.pid, 1), id_b=(w.pid, 2))
+        rA = box['rA']
+    else:
+        w.interfere_at = at
+        w.interfere_hook = intruder
+        x.begin()
+        try:
+            rA = run_op(c, opA, ka, va)
+        except core.Timeout:
+            rA = 'timeout'
     x.end()
     tA = x.times[0] if x.times else 0
     T0, T1 = x.T0, x.T1
@@ -394,6 +420,150 @@ def ob_store_vs_prune(w, P):
     return x.result()
 
 
+def ob_pair_seq(w, P):
+    """client A's call on key k is interrupted at a symbolic event by TWO complete calls of client B: a removal of k followed by
+    a write of another key (which SQLite gives the rowid just freed when k held the largest one).  Results and final
+    state are those of A, B1, B2 executed one at a time in an order that keeps B1 before B2: in particular A must
+    not act on a row it looked up before B replaced it (stale rowid)."""
+    import itertools
+    x = Ctx(w, P, cull_limit=0, kinds=('int',), tags=False)
+    c = x.c
+    core = w.L.core
+    for rv in x.s.rowvars:  # no expiry in the pre-state: atomicity is the subject (touch still writes one)
+        assume(rv['expire_null'].z)
+    k, kc, rc = x.key('keyA')
+    k2, kc2, rc2 = x.key('keyB')
+    assume(sx.zB(NeR(kc.num, kc2.num)))
+    opA = P['a']
+    ops = {'A': (opA, k, kc, rc), 'B1': (P.get('b1', 'delete'), k, kc, rc), 'B2': (P.get('b2', 'set'), k2, kc2, rc2)}
+    vals = {n: x.s.v_int('val%s' % n, -2 ** 30, 2 ** 30) for n in ops}
+    other = w.clone_handle(c)
+    res, tms = {}, {}
+
+    def run(n, h):
+        kind, kk, _, _ = ops[n]
+        k0 = len(w.times)
+        try:
+            if kind == 'touch':
+                res[n] = h.touch(kk, vals[n] if P.get('touch_expire', True) else None)
+            else:
+                res[n] = run_op(h, kind, kk, vals[n])
+        except core.Timeout:
+            res[n] = 'timeout'
+        tms[n] = w.times[k0] if len(w.times) > k0 else None
+
+    def intruder():
+        w.tid, old = 2, w.tid
+        try:
+            run('B1', other)
+            run('B2', other)
+        finally:
+            w.tid = old
+    w.interfere_at = x.s.v_int('at', 0, P.get('max_events', 10))
+    w.interfere_hook = intruder
+    x.begin()
+    run('A', c)
+    x.end()
+    if 'B1' not in res:
+        return x.result()
+    flag('interleaved')
+    t_any = next((t for t in tms.values() if t is not None), 0)
+    admitted = [n for n in ops if res.get(n) != 'timeout']
+    if len(admitted) < 3:
+        flag('timeout_seen')
+
+    def ref(T, n):
+        kind, _, kcn, rcn = ops[n]
+        now = tms[n] if tms[n] is not None else t_any
+        if kind == 'touch':
+            ec = Cell(sqlmodel.REAL, AddR(now, zv(vals[n]))) if P.get('touch_expire', True) else CNULL
+            return rm.r_touch(T, kcn, rcn, now, ec)
+        return ref_op(T, kind, kcn, rcn, vals[n], now)
+    alts = []
+    for order in itertools.permutations(admitted):
+        if 'B1' in order and 'B2' in order and order.index('B1') > order.index('B2'):
+            continue
+        T = x.T0
+        conj = []
+        for n in order:
+            T, r = ref(T, n)
+            conj.append(ret_matches(ops[n][0], res[n], r))
+        conj.append(rm.table_eq(T, x.T1))
+        alts.append(AndL(conj))
+    x.add('C05,C04', 'results and final state are those of A, B1, B2 one at a time (B1 before B2); a refused call has no effect', OrL(alts))
+    x.add('C05,C08', 'counters match afterwards', state.inv_table(x.T1))
+    return x.result()
+
+
+def ob_il_block(w, P):
+    """two threads share one Cache object; both are suspended part-way (not well-nested).  Thread A replaces a file-backed value
+    (its call goes on after COMMIT: the old file is removed); thread B runs a transaction block with a nested write.  A
+    client is refused (Timeout) only if it asked for the lock while the other one really held it; otherwise both take effect;
+    afterwards rows, counters and files agree."""
+    x = Ctx(w, P, kinds=('file',), tags=False, min_file_size=0, cull_limit=0, alive_sym=False, key_lo=0, key_hi=1)
+    c = x.c
+    core = w.L.core
+    for rv in x.s.rowvars:
+        assume(rv['expire_null'].z)
+    krow = int(x.s.rowvars[0]['key'])
+    same_object = P.get('who', 'thread') == 'thread'
+    other = c if same_object else w.clone_handle(c)
+    vb = x.s.v_int('valB', -2 ** 30, 2 ** 30)
+    opA, opB = P.get('a', 'setf'), P.get('b', 'block_set')
+    box = {}
+
+    def run_a():
+        try:
+            if opA == 'setf':
+                box['A'] = c.set(krow, b'replacement')
+            elif opA == 'pop':
+                box['A'] = c.pop(krow, default=None) is not None
+            elif opA == 'delete':
+                box['A'] = c.delete(krow)
+        except core.Timeout:
+            box['A'] = 'timeout'
+
+    def run_b():
+        try:
+            if opB == 'block_set':
+                with other.transact():
+                    box['B'] = other.set(krow + 5, vb)
+            elif opB == 'block_incr':
+                with other.transact():
+                    other.set(krow + 5, 1)
+                    box['B'] = bool(other.incr(krow + 5, 1) == 2)
+            elif opB == 'set':
+                box['B'] = other.set(krow + 5, vb)
+        except core.Timeout:
+            box['B'] = 'timeout'
+    at = x.s.v_int('at', 0, P.get('max_events', 12))
+    at2 = x.s.v_int('at2', 0, P.get('max_events', 12))
+    x.begin()
+    il = w.interleave(run_a, run_b, at, at2, id_a=(w.pid, 1), id_b=(w.pid, 2) if same_object else (w.pid + 100, 1))
+    x.end()
+    if not il.b_started:
+        return x.result()
+    T1 = x.T1
+    for n in ('A', 'B'):
+        if box.get(n) == 'timeout':
+            flag('timeout_seen')
+            x.add('C05,C14,C06', 'client %s is refused only when it asked for the write lock while the other client held it' % n, il.was_blocked[n])
+        else:
+            x.add('C05', 'client %s succeeded' % n, box.get(n) is True)
+    itb = T1.lookup(Cell(INT, krow + 5), Cell(INT, 1))
+    if box.get('B') is True:
+        x.add('C05,C06', "B's write is there", And(itb.present, EqI(itb.c['value'].cls, INT)))
+    elif box.get('B') == 'timeout':
+        x.add('C05,C14', "a refused block left nothing", Not(itb.present))
+    ita = T1.lookup(Cell(INT, krow), Cell(INT, 1))
+    if box.get('A') is True:
+        x.add('C05', "A's write / removal took effect", ita.present if opA == 'setf' else Not(ita.present))
+    x.add('C05,C08', 'counters match', state.inv_table(T1))
+    x.add('C05,C08', 'every row has its value file and no file is left over', x.s.fs_inv(T1))
+    x.add('C05,C06', 'no transaction is left open or owned', c._txn_id is None and other._txn_id is None)
+    return x.result()
+
+
 def jobs(tier):
     out = []
     for how in ('iter', 'reversed', 'iterkeys'):
@@ -407,6 +577,15 @@ def jobs(tier):
         for b in ('setf', 'seti', 'delete', 'pop'):
             out.append(dict(id='pair_file.%s.%s' % (a, b), func='ob_pair_file', params=dict(N=1, a=a, b=b), tags=['C05', 'C01', 'C08'], weight=6, must_reach=['interleaved'],
                             functions=['core.Cache.get', 'core.Cache.pop', 'core.Cache.set', 'core.Cache.delete', 'core.Cache.peekitem', 'core.Disk.fetch', 'core.Disk.store', 'core.Disk.remove']))
+    for a in ('setf', 'pop', 'delete'):
+        for b in ('block_set', 'block_incr', 'set'):
+            for who in ('thread', 'handle'):
+                out.append(dict(id='il_block.%s.%s.%s' % (a, b, who), func='ob_il_block', params=dict(N=1, a=a, b=b, who=who), tags=['C05', 'C06', 'C14', 'C08', 'C20'], weight=10,
+                                must_reach=['both_suspended'], functions=['core.Cache._transact', 'core.Cache.transact', 'core.Cache.set', 'core.Cache.pop', 'core.Disk.remove']))
+    for a in ('touch', 'incr', 'set', 'add', 'pop', 'delete', 'get'):
+        for b1 in ('delete', 'pop'):
+            out.append(dict(id='pair_seq.%s.%s+set' % (a, b1), func='ob_pair_seq', params=dict(N=1 if tier == 'quick' else 2, a=a, b1=b1, b2='set'), tags=['C05', 'C04', 'C08'], weight=8,
+                            must_reach=['interleaved'], functions=['core.Cache.%s' % a, 'core.Cache.delete', 'core.Cache.set', 'core.Cache._transact']))
     for a in ('setf', 'addf', 'pushf'):
         for b in ('delete', 'pop', 'seti'):
             out.append(dict(id='store_vs_prune.%s.%s' % (a, b), func='ob_store_vs_prune', params=dict(N=1, a=a, b=b), tags=['C05', 'C01', 'C08'], weight=6,
@@ -431,6 +610,11 @@ def jobs(tier):
                 out.append(dict(id='pair.%s.%s.%s.N=%d' % (a, b, who, N), func='ob_pair', params=dict(N=N, a=a, b=b, who=who), tags=['C05', 'C08', 'C14'], weight=N * 4,
                                 must_reach=['interleaved'],
                                 functions=['core.Cache.%s' % {'contains': '__contains__'}.get(f, f) for f in {a, b}] + ['core.Cache._transact']))
+        il_pairs = [('incr', 'incr'), ('set', 'incr'), ('add', 'add'), ('pop', 'pop'), ('add', 'delete'), ('touch', 'set'), ('get', 'set'), ('set', 'get'), ('pop', 'get'), ('incr', 'pop')]
+        for a, b in (il_pairs if N == 1 else il_pairs[:4]):
+            for who in ('handle', 'thread'):
+                out.append(dict(id='pair_il.%s.%s.%s.N=%d' % (a, b, who, N), func='ob_pair', params=dict(N=N, a=a, b=b, who=who, il=True, max_events=8), tags=['C05', 'C08', 'C14'], weight=N * 10,
+                                must_reach=['both_suspended'], functions=['core.Cache.%s' % f for f in {a, b}] + ['core.Cache._transact']))
         if tier != 'quick':
             for a, b in [('set', 'incr'), ('incr', 'incr'), ('add', 'add'), ('pop', 'delete')]:
                 out.append(dict(id='pair.%s.%s.handle.diffkey.N=%d' % (a, b, N), func='ob_pair', params=dict(N=N, a=a, b=b, who='handle', same_key=False), tags=['C05', 'C08'],
